@@ -143,7 +143,8 @@ def check_script(ctx, sc):
             d15 = any(k in ('paren', 'subq') for k in kinds) or (
                 len(kinds) == 1 and kinds[0] in ('case', 'operation',
                                                  'operation-x', 'neg',
-                                                 'null', 'bool'))
+                                                 'null', 'bool',
+                                                 'placeholder'))
             d22a = any(k in ('typed', 'dollar', 'operation-x', 'neg')
                        for k in kinds)
             rec.monitor('function_parameters')
@@ -207,7 +208,7 @@ def check_script(ctx, sc):
         # ---- comparisons --------------------------------------------------
         for left, op, right in st.comps:
             ok_kinds = ('col', 'num', 'str', 'call', 'paren', 'subq',
-                        'operation', 'typed', 'cast', 'null')
+                        'operation', 'typed', 'cast', 'null', 'placeholder')
             if left[2] not in ok_kinds or right[2] not in ok_kinds:
                 rec.count('comparisons_outside_declared_operand_classes')
                 continue
